@@ -7,7 +7,7 @@ from mc import core, fixtures as fx
 
 ID = 'C13'
 RULE = ('model level: full product of (native-grid configuration: one molecule uniform/log, two molecules with '
-        'nested / non-nested coarser second grid) x (every contiguous sub-range with >= 2 points of the 10-point '
+        'nested / non-nested coarser or equally long but shifted second grid) x request order (ascending / descending) x observation widths (mid-point implied / all as wide as the widest implied) x (every contiguous sub-range with >= 2 points of the 10-point '
         'coarsening of the finest grid, used as requested grid and as observation) x cutoff flag x model family x '
         'magnitude; restricted run vs full run at the same wavenumbers, and binned to the observation.  opacity '
         'level: every contiguous sub-range of a molecule\'s own points and every contiguous sub-range of a finer '
@@ -33,7 +33,7 @@ def coarse(kind, nat):
 
 
 GRIDCFG = ['one-uniform', 'one-log', 'two-nested-uniform', 'two-offgrid-uniform', 'two-offgrid-log',
-           'two-offgrid-coarsefirst-uniform']
+           'two-offgrid-coarsefirst-uniform', 'two-samelen-offset-uniform', 'two-samelen-offset-log']
 MAGS = {'thin': 1e-31, 'tau1': 1e-27, 'mixed': 1.0}
 
 
@@ -52,7 +52,10 @@ def install(cfg, mag, kind):
     grids = {'H2O': nat}
     tabs = {'H2O': t1}
     if cfg.startswith('two'):
-        cg = coarse('nested' if 'nested' in cfg else 'off', nat)
+        if 'samelen' in cfg:     # same number of points as the finest grid, shifted by 40 % of a spacing
+            cg = nat + 0.4 * np.gradient(nat)
+        else:
+            cg = coarse('nested' if 'nested' in cfg else 'off', nat)
         t2 = fx.table(3, 3, len(cg), 1.0, salt=('c13', 'CH4')) * (1e-27 if mag != 'thin' else 1e-31) * (30 if kind != 'emission' else 1.5)
         OpacityCache().add_opacity(fx.TinyOp('CH4', cg, TG, PG, t2))
         grids['CH4'] = cg
@@ -87,8 +90,9 @@ def model_fn(case):
     fx.reset_caches()
     install(case['cfg'], case['mag'], case['kind'])
     m2 = build(case)
+    req_passed = req[::-1].copy() if case.get('order') == 'descending' else req
     try:
-        gr, sr, tr, _ = m2.model(wngrid=req, cutoff_grid=case['cutoff'])
+        gr, sr, tr, _ = m2.model(wngrid=req_passed, cutoff_grid=case['cutoff'])
     except Exception as e:
         r.check(False, 'no-exception', 'exception/%s/%s' % (type(e).__name__, tag), exc=repr(e), request=req)
         return r
@@ -144,6 +148,8 @@ def model_fn(case):
     # binned to the observation (widths implied by the mid-points => the stated condition holds)
     if len(req) >= 2:
         w = compute_bin_edges(req)[-1]
+        if case.get('widths') == 'max':      # every bin as wide as the widest implied one (still within the stated condition)
+            w = np.full_like(w, w.max())
         b = FluxBinner(req, w)
         bf = np.array(b.bindown(gf, sf)[1], float)
         br = np.array(b.bindown(gr, sr)[1], float)
@@ -219,6 +225,10 @@ def explore(ctx):
             if mag != 'tau1' and (sub[1] - sub[0]) not in (2, 5):
                 continue
         mcases.append({'cfg': cfg, 'sub': list(sub), 'cutoff': cutoff, 'kind': kind, 'mag': mag})
+        if cutoff and mag == 'tau1' and (thorough or cfg in ('one-log', 'two-offgrid-log', 'one-uniform')):
+            for order, widths in (('descending', 'midpoint'), ('ascending', 'max'), ('descending', 'max')):
+                mcases.append({'cfg': cfg, 'sub': list(sub), 'cutoff': cutoff, 'kind': kind, 'mag': mag,
+                               'order': order, 'widths': widths})
     ctx.run_cases('model_fn', mcases, phase='model')
     ocases = []
     for spacing, ng, TP in itertools.product(['uniform', 'log'], [0, 1, 3], [[1000.0, 1e3], [3000.0, 1e-3]]):
